@@ -68,6 +68,125 @@ func ruleFillByte(p *Prog, r *Report) {
 			}
 		}
 	})
+	// second clause: no step of two bytes (the skip of a marker, the framing of a segment) is taken before the
+	// fill-byte question is answered: every discard of a constant ≥ 2 and every store to the marker field sits
+	// under the "not 0xFF" edge of that test, or under a test that pins byte 1 to another value (isSOIMarker).
+	isFillTest := func(v ssa.Value) (eqIsTrue bool, ok bool) {
+		bo, ok := v.(*ssa.BinOp)
+		if !ok || (bo.Op != token.EQL && bo.Op != token.NEQ) {
+			return false, false
+		}
+		var other ssa.Value
+		if k, ok := constInt(bo.Y); ok && k == 0xff {
+			other = bo.X
+		} else if k, ok := constInt(bo.X); ok && k == 0xff {
+			other = bo.Y
+		} else {
+			return false, false
+		}
+		ld, ok := other.(*ssa.UnOp)
+		if !ok || ld.Op != token.MUL {
+			return false, false
+		}
+		ia, ok := ld.X.(*ssa.IndexAddr)
+		if !ok {
+			return false, false
+		}
+		if k, ok := constInt(ia.Index); !ok || k != 1 {
+			return false, false
+		}
+		return bo.Op == token.EQL, true
+	}
+	// pinsByte1: a boolean helper that can only return true when byte 1 of its slice parameter equals a constant
+	// other than 0xFF (`buf[0] == 0xFF && buf[1] == 0xD8`)
+	pinsByte1 := func(g *ssa.Function) bool {
+		if g == nil || g.Blocks == nil || len(g.Params) != 1 {
+			return false
+		}
+		var pins func(v ssa.Value, seen map[ssa.Value]bool) bool
+		pins = func(v ssa.Value, seen map[ssa.Value]bool) bool {
+			if seen[v] {
+				return true
+			}
+			seen[v] = true
+			switch x := v.(type) {
+			case *ssa.Const:
+				b, isB := boolConst(x)
+				return isB && !b
+			case *ssa.Phi:
+				for _, ed := range x.Edges {
+					if !pins(ed, seen) {
+						return false
+					}
+				}
+				return true
+			case *ssa.BinOp:
+				if x.Op != token.EQL {
+					return false
+				}
+				k, ok := constInt(x.Y)
+				if !ok || k == 0xff {
+					return false
+				}
+				ld, ok := x.X.(*ssa.UnOp)
+				if !ok || ld.Op != token.MUL {
+					return false
+				}
+				ia, ok := ld.X.(*ssa.IndexAddr)
+				if !ok || ia.X != ssa.Value(g.Params[0]) {
+					return false
+				}
+				i, ok := constInt(ia.Index)
+				return ok && i == 1
+			}
+			return false
+		}
+		okAll, any := true, false
+		eachInstr(g, func(_ *ssa.BasicBlock, _ int, in ssa.Instruction) {
+			if ret, ok := in.(*ssa.Return); ok && len(ret.Results) == 1 {
+				any = true
+				if !pins(ret.Results[0], map[ssa.Value]bool{}) {
+					okAll = false
+				}
+			}
+		})
+		return okAll && any
+	}
+	answered := func(b *ssa.BasicBlock) bool {
+		for _, cd := range condsAt(b) {
+			if eqIsTrue, ok := isFillTest(cd.V); ok && cd.True != eqIsTrue {
+				return true
+			}
+			if c, ok := cd.V.(*ssa.Call); ok && cd.True && pinsByte1(c.Call.StaticCallee()) {
+				return true
+			}
+		}
+		return false
+	}
+	early := ""
+	eachInstr(f, func(b *ssa.BasicBlock, _ int, in ssa.Instruction) {
+		if early != "" {
+			return
+		}
+		switch x := in.(type) {
+		case ssa.CallInstruction:
+			if sc := x.Common().StaticCallee(); sc != nil && sc.Name() == "discard" {
+				for _, a := range x.Common().Args {
+					if k, ok := constInt(a); ok && k >= 2 && !answered(b) {
+						early = "discard(" + shortVal(a) + ") at " + p.posStr(instrPos(in))
+					}
+				}
+			}
+		case *ssa.Store:
+			if fa, ok := x.Addr.(*ssa.FieldAddr); ok && fieldName(fa.X.Type(), fa.Field) == "marker" && !answered(b) {
+				early = "the store of the marker code at " + p.posStr(instrPos(in))
+			}
+		}
+	})
+	if found && early != "" {
+		r.Bad("FILLBYTE", key, p.posStr(f.Pos()), "the fill-byte test exists but "+early+" is reached without its answer: with byte 1 still possibly 0xFF a step of two bytes goes over the first byte of the real marker (\"FF FF D8\" in front of the image loses the SOI)")
+		return
+	}
 	if found {
 		r.OK("FILLBYTE", key, p.posStr(f.Pos()), "byte 1 of the window is compared with 0xFF and one byte is discarded when it matches")
 	} else {
